@@ -518,3 +518,55 @@ pub fn replay(_ctx: &Ctx, _sub: &str, case: &Value) -> Vec<Violation> {
         Err(_) => Vec::new(),
     }
 }
+
+/// The decoding the libFuzzer targets (harness/fuzz) apply to their byte input, so that a crashing
+/// artifact can be re-decided by the deterministic oracle.
+pub fn decode_fuzz_input(target: &str, data: &[u8]) -> Option<TotalCase> {
+    match target {
+        "fz_message" => {
+            if data.len() < 2 {
+                return None;
+            }
+            let mt = MSGS[data[0] as usize % MSGS.len()].mt;
+            let kind = if data[0] >= 128 { "block4" } else { "message" };
+            Some(TotalCase { kind: kind.into(), target: mt.to_string(), input: String::from_utf8_lossy(&data[1..]).to_string(), mutation: "libfuzzer".into() })
+        }
+        "fz_field" => {
+            if data.is_empty() {
+                return None;
+            }
+            let f = FIELDS[data[0] as usize % FIELDS.len()].name;
+            Some(TotalCase { kind: "field".into(), target: f.to_string(), input: String::from_utf8_lossy(&data[1..]).to_string(), mutation: "libfuzzer".into() })
+        }
+        "fz_header" => {
+            if data.is_empty() {
+                return None;
+            }
+            let k = [1u8, 2, 3, 5][data[0] as usize % 4];
+            Some(TotalCase { kind: "header".into(), target: k.to_string(), input: String::from_utf8_lossy(&data[1..]).to_string(), mutation: "libfuzzer".into() })
+        }
+        "fz_json" => {
+            if data.len() < 8 {
+                return None;
+            }
+            let choices: Vec<u32> = data
+                .chunks(4)
+                .map(|c| {
+                    let mut b = [0u8; 4];
+                    b[..c.len()].copy_from_slice(c);
+                    u32::from_le_bytes(b)
+                })
+                .collect();
+            let mut src = Src::new(&choices);
+            let mt = MSGS[src.below(MSGS.len())].mt;
+            let body = crate::props::c10::minimal_body(mt);
+            let text = format!("{{1:F01BANKDEFFAXXX0000000000}}{{2:I{}BANKUS33AXXXN}}{{3:{{108:MUR}}{{121:9690a785-2ed8-4101-a5e2-35f94f151d1d}}}}{{4:\n{}-}}{{5:{{CHK:123456789ABC}}}}", mt, body);
+            let mut v = (msg_ops(mt).parse_full)(&text).ok()?.json;
+            for _ in 0..(1 + src.below(3)) {
+                damage_json(&mut v, &mut src);
+            }
+            Some(TotalCase { kind: "json".into(), target: mt.to_string(), input: v.to_string(), mutation: "libfuzzer".into() })
+        }
+        _ => None,
+    }
+}
